@@ -137,6 +137,10 @@ func (g *gen) number(kind string) *Node {
 
 func (g *gen) subject() *Node {
 	s := Obj()
+	if g.coin(0.06) {
+		g.mark("subject-empty")
+		return s // {} : still a node, hence a fact (dropped if the field were omitempty)
+	}
 	if g.coin(0.7) {
 		s.Set("id", Str(g.pick("did:example:holder1", "urn:uuid:11111111-2222-3333-4444-555555555555", "https://example.com/holders/7")))
 		g.mark("subject-id")
@@ -448,7 +452,9 @@ func (g *gen) brokenProof() *Node {
 		p.Del("issuerData")
 	case 5:
 		p.Del("mtp")
-		p.Set("mtp", g.pick2(Str("x"), Obj().Set("existence", Str("yes")), Obj().Set("siblings", Arr(Str("notanumber")))))
+		p.Set("mtp", g.pick2(Str("x"), Obj().Set("existence", Str("yes")), Obj().Set("siblings", Arr(Str("notanumber"))),
+			Obj().Set("existence", Bool(true)).Set("siblings", Arr(Str("1"), Null())), g.manySiblings(241), g.manySiblings(240),
+			Obj().Set("existence", Bool(true)).Set("siblings", Obj()), Arr(), Num("1")))
 	case 6:
 		p.Del("issuerData")
 		p.Set("issuerData", g.pick2(Null(), Str("s"), Obj().Set("state", Obj().Set("blockNumber", Num("1.5")))))
@@ -462,6 +468,15 @@ func (g *gen) brokenProof() *Node {
 }
 
 func (g *gen) pick2(xs ...*Node) *Node { return xs[g.rng.Intn(len(xs))] }
+
+// manySiblings: n zero siblings (decodeMTP rejects more than 240)
+func (g *gen) manySiblings(n int) *Node {
+	a := Arr()
+	for i := 0; i < n; i++ {
+		a.A = append(a.A, Str("0"))
+	}
+	return Obj().Set("existence", Bool(false)).Set("siblings", a)
+}
 
 // ---- DID documents ----
 
